@@ -42,7 +42,11 @@ Mutators ==
      "SDsetdimstrs", "SDsetdatastrs", "SDsetcal", "SDsetrange", "SDsetfillvalue", "SDsetcompress", "SDsetchunk",
      "SDsetnbitdataset", "SDsetexternalfile",
      "GRcreate", "GRwriteimage", "GRsetattr_file", "GRsetattr_ri", "GRwritelut", "GRsetcompress", "GRsetchunk", "GRsetexternalfile",
-     "ANcreate", "ANcreatef", "ANwriteann"}
+     "ANcreate", "ANcreatef", "ANwriteann",
+     \* the attribute setters once more, on attributes that are already in the file (a replacement, not an addition)
+     "Vsetattr_existing", "VSsetattr_existing", "SDsetattr_file_existing", "SDsetattr_sds_existing", "SDsetattr_dim_existing",
+     "GRsetattr_file_existing", "GRsetattr_ri_existing",
+     "SDwritedata_empty"}                  \* a write to a data set that holds no data yet
 
 VARIABLES st,       \* "none" | "closed" | "ro"
           kind,     \* which file was prepared
